@@ -93,18 +93,47 @@ Proof.
   rewrite insert_by_in, IH. split; intros [H|H]; auto.
 Qed.
 
-(* every entry a text (top / tree) report shows, for any nodecount, node cutoff, edge cutoff and sort
-   order, is an entry of the untrimmed graph of the same report, with the same numbers *)
-Theorem text_report_nodes_unchanged_lemma : forall o pr n v,
-  In (n, v) (g_nodes (t_g (new_trimmed_text o pr))) -> In (n, v) (g_nodes (report_graph o pr None)).
+(* the path clean-up of Report.newGraph is applied again on every rebuild; when one application
+   reaches a fixed point on the profile's file names, every rebuild sees the same profile *)
+Lemma rebuild_stable : forall o pr, paths_stable o pr = true -> rebuild o (rebuild o pr) = rebuild o pr.
 Proof.
-  intros o pr n v. unfold new_trimmed_text.
-  assert (H1 : forall x, In x (g_nodes (fst (trim_pass1 o pr))) -> In x (g_nodes (report_graph o pr None))).
-  { intros [k w]. unfold trim_pass1. destruct (0 <? o_nodecutoff o); [|auto].
-    destruct (negb (nlen (report_graph o pr None) =? Z.of_nat (List.length (above_cum_cutoff node_info (o_nodecutoff o) (report_graph o pr None)))));
-      [|auto].
-    simpl fst. unfold report_graph. apply kept_nodes_unchanged_graph_lemma. exact ni_eqb_spec. }
-  destruct (trim_pass1 o pr) as [g1 dropped]. simpl fst in H1.
+  intros o pr H. unfold rebuild. cbn [pr_prof pr_ix pr_total]. f_equal.
+  unfold trim_files. cbn [p_function p_sampletype p_defaultsampletype p_sample p_mapping p_location p_comments
+                          p_docurl p_dropframes p_keepframes p_timenanos p_durationnanos p_periodtype p_period].
+  f_equal. rewrite map_map. apply map_ext_in. intros f Hin. cbn [f_id f_name f_sysname f_file f_startline].
+  unfold paths_stable in H. rewrite forallb_forall in H. specialize (H f Hin). apply String.eqb_eq in H.
+  rewrite H. reflexivity.
+Qed.
+
+Lemma pass1_state : forall o pr, paths_stable o pr = true -> snd (trim_pass1 o pr) = rebuild o pr.
+Proof.
+  intros o pr H. unfold trim_pass1. cbv zeta.
+  destruct (0 <? o_nodecutoff o); [|reflexivity].
+  match goal with |- context [if ?c then _ else _] => destruct c end; [|reflexivity].
+  simpl snd. apply rebuild_stable. exact H.
+Qed.
+
+Lemma pass1_nodes : forall o pr x, paths_stable o pr = true ->
+  In x (g_nodes (fst (fst (trim_pass1 o pr)))) -> In x (g_nodes (report_graph o (rebuild o pr) None)).
+Proof.
+  intros o pr [k w] H. unfold trim_pass1. cbv zeta.
+  destruct (0 <? o_nodecutoff o); [|auto].
+  match goal with |- context [if ?c then _ else _] => destruct c end; [|auto].
+  simpl fst. rewrite (rebuild_stable o pr H). unfold report_graph.
+  apply kept_nodes_unchanged_graph_lemma. exact ni_eqb_spec.
+Qed.
+
+(* every entry a text (top / tree) report shows, for any nodecount, node cutoff, edge cutoff and sort
+   order, is an entry of the untrimmed graph of the same report, with the same numbers -- provided
+   the report's path clean-up is stable on the profile's file names (F40 otherwise) *)
+Theorem text_report_nodes_unchanged_lemma : forall o pr n v, paths_stable o pr = true ->
+  In (n, v) (g_nodes (t_g (new_trimmed_text o pr))) -> In (n, v) (g_nodes (report_graph o (rebuild o pr) None)).
+Proof.
+  intros o pr n v HS. unfold new_trimmed_text.
+  pose proof (pass1_state o pr HS) as H2.
+  pose proof (fun x => pass1_nodes o pr x HS) as H1.
+  destruct (trim_pass1 o pr) as [[g1 dropped] pr2]. simpl in H1, H2. subst pr2.
+  rewrite (rebuild_stable o pr HS).
   cbn [t_g]. unfold trim_edges. cbn [g_nodes].
   destruct (0 <? o_nodecount o).
   - match goal with |- context [if ?c then _ else _] => destruct c end.
@@ -112,4 +141,33 @@ Proof.
       unfold report_graph in *. eapply kept_nodes_unchanged_graph_lemma; [exact ni_eqb_spec|exact H].
     + cbn [g_nodes]. unfold sort_nodes. cbn [g_nodes]. intros H. apply sort_by_in in H. apply H1. exact H.
   - unfold sort_nodes. cbn [g_nodes]. intros H. apply sort_by_in in H. apply H1. exact H.
+Qed.
+
+(* ---------------- glue: options as the driver hands them to the report ---------------- *)
+Lemma explicit_nodecount_kept_lemma : forall format n,
+  String.eqb format "callgrind" = false -> n <> -1 -> override_nodecount format false n = n.
+Proof.
+  intros format n Hf Hn. unfold override_nodecount. rewrite Hf. simpl.
+  destruct (n =? -1) eqn:E; [apply Z.eqb_eq in E; contradiction|reflexivity].
+Qed.
+
+Lemma notrim_switches_off_lemma : forall format n c,
+  override_nodecount format true n = 0 /\ override_cutoff format true c = 0.
+Proof. intros. unfold override_nodecount, override_cutoff. simpl. split; reflexivity. Qed.
+
+Lemma legacy_keeps_explicit_lemma : forall flags si, si <> ""%string -> legacy_si flags si = si.
+Proof.
+  intros flags si H. unfold legacy_si.
+  assert (E : String.eqb si "" = false) by (apply String.eqb_neq; exact H).
+  generalize legacy_table. intros l. induction l as [|fe r IH]; simpl; [reflexivity|].
+  rewrite E, andb_false_r. exact IH.
+Qed.
+
+(* a report that asks for no limit at all shows every node of the untrimmed graph *)
+Lemma untrimmed_request_lemma : forall o pr,
+  o_nodecount o = 0 -> o_nodecutoff o = 0 ->
+  g_nodes (t_g (new_trimmed_text o pr)) =
+  sort_by (if o_cumsort o then cum_name_less else flat_name_less) (g_nodes (report_graph o (rebuild o pr) None)).
+Proof.
+  intros o pr H1 H2. unfold new_trimmed_text, trim_pass1. rewrite H1, H2. reflexivity.
 Qed.
